@@ -19,13 +19,13 @@ Theorem apply_patch_verdicts : forall o f p r,
   define_macro o = [] -> force o = true -> apply_patch o f p = Ok r ->
   let hs := hunks (if reverse_patch_opt o then reverse_patch p else p) in
   exists vs, replay f 0 hs vs = Some (r_out r) /\ r_failed r = count_rejected vs /\
-             r_skipped r = false /\ verdicts_from_locate o f 0 0 hs vs.
+             r_skipped r = false /\ verdicts_from_locate o (if reverse_patch_opt o then reverse_patch p else p) f 0 0 hs vs.
 Proof. exact Proofs_Apply.apply_patch_verdicts. Qed.
 Print Assumptions apply_patch_verdicts.
 
 (* hence every applied hunk sits at or after the cursor left by the previous one, at an admissible place *)
-Theorem verdicts_are_admissible : forall o f hs vs cursor offerr,
-  verdicts_from_locate o f cursor offerr hs vs ->
+Theorem verdicts_are_admissible : forall o p f hs vs cursor offerr,
+  verdicts_from_locate o p f cursor offerr hs vs ->
   verdicts_admissible (ignore_whitespace o) (max_fuzz o) f cursor hs vs.
 Proof. exact Proofs_Apply.verdicts_from_locate_admissible. Qed.
 Print Assumptions verdicts_are_admissible.
